@@ -142,7 +142,7 @@ func runOverload(rec *Rec, sc *OverloadScenario, n int) {
 			srv.RouteCall(new(T))
 			rec.Emit("Op", "op", "limit", "k", st.K, "admitted", 0)
 			continue
-		case "raise":
+		case "raise": // also: a limit is configured for the first time
 			ov.Update(overloader.LimitConfig{MaxConn: int32(st.K)})
 			rec.Emit("Op", "op", "raise", "k", st.K, "admitted", 0)
 		case "connect":
